@@ -36,3 +36,13 @@ silent("C61", "gd-cost-before-update",
 silent("C61", "rotoselect-rename-cost-local",
        [(RS, "        cost = objective_fn(x, generators, **kwargs)\n        x_new, generators = self.step(objective_fn, x, generators, **kwargs)\n\n        return x_new, generators, cost",
              "        before = objective_fn(x, generators, **kwargs)\n        x_new, generators = self.step(objective_fn, x, generators, **kwargs)\n\n        return x_new, generators, before")])
+
+# --- R-C61-tstep
+_ADAM = "pennylane/optimize/adam.py"
+fire("C61", "adam-timestep-advanced-per-trainable-argument",
+     (_ADAM, "        # update first moment\n        self.accumulation[\"fm\"][index] = (", "        self.accumulation[\"t\"] += 1\n        # update first moment\n        self.accumulation[\"fm\"][index] = ("),
+     "R-C61-tstep", "_update_accumulation")
+fire("C61", "adam-timestep-advanced-inside-the-argument-loop",
+     (_ADAM, "            if getattr(arg, \"requires_grad\", False):\n                self._update_accumulation(index, grad[trained_index])",
+             "            if getattr(arg, \"requires_grad\", False):\n                self.accumulation[\"t\"] += 1\n                self._update_accumulation(index, grad[trained_index])"),
+     "R-C61-tstep", "apply_grad")
